@@ -47,6 +47,13 @@ def grammars():
         # element names that are members of dict (items, keys): the AST spells them items_ / keys_; whatever the spelling, the classes
         # of the generated model module must give the same tree as the synthesized ones (the routes are compared with each other)
         'dict-member-names': grammar(rule('s', seq(named('items', call('y')), named('keys', opt(call('y')))), typ=['Root']), leaf()),
+        # a node that a DISCARDED node also held: the typed rule y is answered from the memo in the later alternatives, the Macro built in
+        # the second alternative is thrown away - the Leaf belongs to the node that is in the result
+        'child-of-discarded-node': grammar(rule('s', alt(seq(ovr(call('c')), p), seq(ovr(call('m')), b), seq(ovr(call('c')), a))),
+                                           rule('c', named('k', call('y')), typ=['Call']), rule('m', named('k', call('y')), typ=['Macro']), leaf()),
+        'child-of-discarded-list': grammar(rule('s', alt(seq(ovr(call('c')), p), seq(ovr(call('m')), b), seq(ovr(call('c')), a))),
+                                           rule('c', namedlist('ks', plus(call('y'))), typ=['Call']),
+                                           rule('m', seq(named('k', call('y')), named('j', opt(call('y')))), typ=['Macro']), leaf()),
         'deep': grammar(rule('s', seq(named('c', call('m')), opt(b)), typ=['Root']), rule('m', seq(named('d', call('y')), named('e', star(call('y')))), typ=['Mid']), leaf()),
     }
 
